@@ -4,6 +4,8 @@ import GqlgenVerif.Model.ServerStateCfg
 import GqlgenVerif.Gen.RespHeaders
 import GqlgenVerif.Gen.CollectAlias
 import GqlgenVerif.Gen.WsLoop
+import GqlgenVerif.Gen.WsHolder
+import GqlgenVerif.Gen.IntroStores
 /-! Line-protocol driver for C07: runs `Model/ServerState` (configured from the regenerated
 `Gen/PoolReset.lean`) on the request histories of the Go harness.
 
@@ -29,6 +31,16 @@ collectwitness                              run the regenerated `*ast.Field` arm
                                             1 merges: `none`, `unknown-arm`, or the first document on which request 0
                                             resolves something else than its own selections / the document is written
 ```
+wsh <s:<k> | a:<k>:<hexmsg> | f:<k>>…        a websocket session as the error-holder model sees it (operation k is started, its
+                                            resolver reports an error through AddSubscriptionError, its stream ends): how
+                                            `Model/WsHolder` (configured from Gen/WsHolder.lean) ends each stream (`k:c` complete,
+                                            `k:e:<hex of the messages, NUL-separated>`), and whether that is what the operation
+                                            gets alone
+holderwitness                               `none`, or a session on which the regenerated holder policy ends an operation with
+                                            another operation's error
+introwitness                                `none`, or what the regenerated facts about package introspection let a request do
+                                            to the schema (OfType clearing NonNull on the schema's node; stores / mutating calls
+                                            that reach it)
 `req` answers `<class> [params] apq=<digest> qc=<digest> | spec=<same|DIFF> poolzero=<0|1> pool=<n>`.
 -/
 open GqlgenVerif GqlgenVerif.SS
@@ -238,6 +250,54 @@ def wsRun (evs : List WsLoop.Ev) : String :=
   let own := out.all fun (k, i) => i == (starts[k]?).map (·.id)
   s!"{" ".intercalate ids} | spec={if own then "same" else "DIFF"}"
 
+/-- `wsh` op: tokens → events of `Model/WsHolder` -/
+def wshEvents (toks : List String) : Option (List WsHolder.Ev) :=
+  toks.mapM fun t =>
+    match t.splitOn ":" with
+    | ["s", k] => k.toNat?.map WsHolder.Ev.start
+    | ["f", k] => k.toNat?.map WsHolder.Ev.finish
+    | ["a", k, m] => (k.toNat?).bind fun k => (if m == "-" then some "" else unhexS m).map fun m => WsHolder.Ev.addErr k m
+    | _ => none
+
+def wshShow (f : Nat × Option (List String)) : String :=
+  match f.2 with
+  | none => s!"{f.1}:none"
+  | some [] => s!"{f.1}:c"
+  | some es => s!"{f.1}:e:{hexS ("\x00".intercalate es)}"
+
+def wshRun (p : WsHolder.Policy) (evs : List WsHolder.Ev) : String :=
+  let out := (WsHolder.run p evs).out
+  let ops := (evs.map (·.op)).eraseDups
+  let own := ops.all fun o => WsHolder.framesOf o out == (WsHolder.run p (WsHolder.only o evs)).out
+  s!"{" ".intercalate (out.map wshShow)} | spec={if own then "same" else "DIFF"}"
+
+def holderWitness : String :=
+  let p := Gen.WsHolder.policy
+  let grid : List (List WsHolder.Ev) := [
+    [.start 0, .addErr 0 "first", .finish 0, .start 1, .finish 1],
+    [.start 0, .start 1, .addErr 0 "first", .finish 1, .finish 0],
+    [.start 0, .addErr 0 "first", .finish 0, .start 1, .addErr 1 "second", .finish 1]]
+  let bad := grid.findSome? fun evs =>
+    let out := (WsHolder.run p evs).out
+    ([0, 1] : List Nat).findSome? fun o =>
+      let alone := (WsHolder.run p (WsHolder.only o evs)).out
+      if WsHolder.framesOf o out != alone then
+        some s!"leak connection-holder={p.connHolder} install={repr p.install}: in the session {" ".intercalate (evs.map fun e => match e with | .start k => s!"start({k})" | .addErr k m => s!"AddSubscriptionError({k},{m})" | .finish k => s!"end({k})")} operation {o} ends with [{" ".intercalate ((WsHolder.framesOf o out).map wshShow)}], alone with [{" ".intercalate (alone.map wshShow)}]"
+      else none
+  bad.getD "none"
+
+def introWitness : String :=
+  let h0 : IntroHeap.Heap := [⟨true, some 1, ""⟩, ⟨true, none, "Int"⟩]
+  let h1 := IntroHeap.walk Gen.IntroStores.ofTypeUnwrap h0 [0, 1]
+  let shared := Gen.IntroStores.stores.filter fun s => s.2.2 != IntroHeap.Root.own
+  if h1.take 2 != h0 then
+    s!"schema-written OfType clears NonNull on the schema's own node: a `[Int!]!` position is {IntroHeap.kind h1 0} / its element {IntroHeap.kind h1 1} after one request resolved ofType on them (was NON_NULL / NON_NULL)"
+  else if !shared.isEmpty then
+    s!"store-reaches-schema {" ; ".intercalate (shared.map fun s => s.1 ++ ": " ++ s.2.1)}"
+  else if !Gen.IntroStores.mutatingCallsOnShared.isEmpty then
+    s!"mutating-call-on-schema {" ; ".intercalate (Gen.IntroStores.mutatingCallsOnShared.map fun s => s.1 ++ ": " ++ s.2)}"
+  else "none"
+
 /-- `collectwitness` op -/
 def collectWitness : String :=
   match CollectAlias.armSem Gen.CollectAlias.fieldArm with
@@ -278,6 +338,12 @@ def stepD (d : DState) (line : String) : DState × String :=
     (d, match witnessFor genCfg with | some f => s!"leak {f}" | none => "none")
   | ["hdrwitness"] => (d, (hdrWitness.getD "none").replace "\n" " ")
   | ["collectwitness"] => (d, collectWitness)
+  | ["holderwitness"] => (d, holderWitness.replace "\n" " ")
+  | ["introwitness"] => (d, introWitness.replace "\n" " ")
+  | "wsh" :: toks =>
+    match wshEvents toks with
+    | some evs => (d, wshRun Gen.WsHolder.policy evs)
+    | none => (d, "bad-op")
   | "ws" :: toks =>
     match wsEvents toks with
     | some evs => (d, wsRun evs)
